@@ -122,7 +122,8 @@ class C18(core.Prop):
             return case['pats'], case['strings'], case['freqs'], None
         x = self._extract(case)
         pats = list(x.results.rex) if x.results else []
-        return pats, list(x.examples.strings), list(x.examples.freqs), x
+        ex = x.supplied_examples() if hasattr(x, 'supplied_examples') else x.examples   # what the figures are computed from
+        return pats, list(ex.strings), list(ex.freqs), x
 
     def model_ops(self, case):
         try:
@@ -227,23 +228,20 @@ class C18(core.Prop):
             get_cov = lambda d: x.coverage(dedup=d)
             get_full = lambda sd: x.full_incremental_coverage(dedup=sd)
             get_incr = lambda sd: x.incremental_coverage(dedup=sd)
-            # The figures are computed from the extractor's working set.  Compare that set with
-            # what was supplied first: if they differ, that IS the violation (classified by cause),
-            # and the remaining clauses are then evaluated against the working set so that an
-            # independent miscount is still reported under its own key.
-            ws, wf = list(x.examples.strings), list(x.examples.freqs)
+            # The figures must describe the examples supplied (not the sample extraction worked from): every clause
+            # below is evaluated against them.  When they do not, the mismatch is classified by its cause first.
+            ex = x.supplied_examples() if hasattr(x, 'supplied_examples') else x.examples
+            ws, wf = list(ex.strings), list(ex.freqs)
             wd = {}
             for a, b in zip(ws, wf):
                 wd[a] = wd.get(a, 0) + b
             if len(ws) != len(set(ws)):
                 fail('working-set', 'unmatched examples were re-added: working set %r' % (list(zip(ws, wf)),),
                      'working-set:unmatched-examples-readded')
-                sup_strings, sup_freqs = ws, wf
             elif wd != sup:
-                fail('working-set', 'figures describe a working set of %d (of %d supplied) distinct examples'
+                fail('working-set', 'figures describe a set of %d (of %d supplied) distinct examples'
                      % (len(ws), len(sup)),
                      'working-set:sample-not-supplied' if sampled else 'working-set:differs')
-                sup_strings, sup_freqs = ws, wf
             for d in (False, True):
                 want = len(sup_strings) if d else sum(sup_freqs)
                 got = x.n_examples(dedup=d)
